@@ -200,6 +200,8 @@ func c09GenSet(r *Rng, id int) c09Set {
 		s.Files["layouts/main.vuego"] = `<html><head><title>{{ title }}</title></head><body class="{{ theme }}"><header v-once><b>{{ site }}</b></header><main v-html="content"></main><footer><slot name="foot">nofoot</slot></footer></body></html>`
 	}
 	s.Files["comp/card.vuego"] = "---\nkind: card\n---\n" + `<template :required="label"><div class="card {{ kind }}"><h3 v-once>{{ label | upper }}</h3><slot>empty</slot><small v-if="note">{{ note }}</small></div></template>`
+	// a component whose slot hands values to its content and that goes on reading its own props after the slot
+	s.Files["comp/panel.vuego"] = `<div class="panel" :data-k="kind"><slot :owner="label" :n="qty">none</slot><b>[{{ label }}|{{ kind }}|{{ qty }}]</b><slot name="foot" :who="label"></slot><i>{{ kind }}</i></div>`
 	s.Files["comp/item.vuego"] = `<li :class="cls"><span v-text="it.name"></span> = {{ it.qty * 2 }}<i v-if="it.qty > 1">many</i><i v-else>one</i></li>`
 	nPages := 1 + r.Intn(3)
 	for p := 0; p < nPages; p++ {
@@ -220,6 +222,7 @@ func c09GenSet(r *Rng, id int) c09Set {
 			`<ul><template v-for="it in items" include="comp/item.vuego" :it="it" cls="row"></template></ul>`,
 			`<template include="comp/card.vuego" label="first" :note="note"><em>{{ user.name | upper }}</em></template>`,
 			`<template include="comp/card.vuego" :label="user.name"></template>`,
+			`<template include="comp/panel.vuego" :label="user.name" kind="k1" :qty="counter"><template #default="{ owner, n }"><u>{{ owner }}:{{ n }}:{{ counter }}</u></template><template v-slot:foot="p"><s>{{ p.who }}</s></template></template><ol><li v-for="it in items">{{ it.name }}{{ owner }}{{ n }}</li></ol>`,
 			`<div v-once><span>{{ counter }}</span></div>`,
 			`<p v-for="(i, it) in items" :data-i="i">{{ it.name | lower }}-{{ i + 1 }}</p>`,
 			`<p v-if="user.admin">admin</p><p v-else-if="user.name">named</p><p v-else>anon</p>`,
